@@ -183,6 +183,12 @@ F1 = F1 + [("add", T(["P", "z", "A+,B+,p+", "*"])), ("add", T(["P", "z", "B-,A-,
 # that is already defined, a second value for a single-definition tag
 HADD = [("hadd", "xx", "a", "Z"), ("hadd", "xx", 1.5, "f"), ("hadd", "xx", "a", None),
         ("hadd", "TS", 7, "i"), ("hadd", "TS", "x", "Z"), ("hadd", "xx", "[1]", "J")]
+# an H line that fixes the version AND cannot be merged (its other tag
+# contradicts the header): the version must not have been fixed
+F1 = F1 + [("add", T(["H", "VN:Z:1.0", "TS:i:2"])), ("add", T(["H", "VN:Z:1.0", "xx:Z:one"])),
+           ("add", T(["H", "TS:i:2", "VN:Z:1.0"]))]
+F2 = F2 + [("add", T(["H", "VN:Z:2.0", "TS:i:2"])), ("add", T(["H", "VN:Z:2.0", "xx:Z:one"])),
+           ("add", T(["H", "TS:i:2", "VN:Z:2.0"]))]
 F1 = F1 + HADD
 FRAG = T(["F", "a", "x+", "0", "2", "0", "2", "*"])
 F2 = F2 + HADD + [
